@@ -6,10 +6,11 @@ from sfmon.runner import MONITORS, VERIF
 
 PY = '/venv/bin/python'
 props = {json.loads(l)['id']: json.loads(l) for l in open(os.path.join(VERIF, 'properties.jsonl'))}
+READY = set(open(os.path.join(VERIF, 'tools', 'ready.txt')).read().split())
 checks, na = [], []
 for pid in sorted(props):
     path = os.path.join(VERIF, 'sfmon', 'monitors', MONITORS[pid] + '.py')
-    if not os.path.exists(path):
+    if not os.path.exists(path) or pid not in READY:
         na.append({'property_id': pid, 'reason': 'monitor not built yet in this session (planned in DESIGN.md section 5); not claimed'})
         continue
     mod = importlib.import_module(f'sfmon.monitors.{MONITORS[pid]}')
